@@ -484,11 +484,15 @@ func opAdd(h *Hist) {
 	h.begin("Add", "C05")
 	l := n.list()
 	k := 1
-	if h.d.Draw("add-multi", 4) == 0 {
+	switch h.d.Draw("add-multi", 8) {
+	case 0, 1:
 		k = 2 + h.d.Draw("add-n", 2)
+	case 2:
+		k = 0 // Add() with no value: nothing changes, the receiver is returned
+		h.counters["probe:zero-argument-call"]++
 	}
 	rejectAt := -1
-	if h.faults() && h.d.Draw("fault-reject", 12) == 0 {
+	if h.faults() && k > 0 && h.d.Draw("fault-reject", 12) == 0 {
 		rejectAt = h.d.Draw("reject-at", k)
 	}
 	var gvs []any
@@ -1586,11 +1590,18 @@ func opSet(h *Hist) {
 	if len(n.Fields)+k > h.maxSlots {
 		k = 1
 	}
+	if h.d.Draw("set-empty", 10) == 0 {
+		k = 0 // Set() with no pair
+		h.counters["probe:zero-argument-call"]++
+	}
 	fault := 0 // 1 odd arity, 2 non-string key, 3 rejected value
 	faultAt := -1
 	if h.faults() && h.d.Draw("fault-set", 8) == 0 {
 		fault = 1 + h.d.Draw("set-fault-kind", 3)
 		faultAt = h.d.Draw("fault-at", k)
+		if k == 0 {
+			fault = 0
+		}
 	}
 	type pair struct {
 		key string
